@@ -313,7 +313,7 @@ package core
 //@   call Insert#2 assert [newer-wins] newer_set && newer && as($2, mergeEntry).ID == splitID && as($2, mergeEntry).BundleEntry == file
 //@   call Insert#2 assert [no-extra-path-in-ignore-mode] mode == model.IgnoreConflicts || splitID == existing.ID
 //@   call Insert#4 assert [newer-wins] newer_set && newer && as($2, mergeEntry).ID == splitID && as($2, mergeEntry).BundleEntry == file
-// the losing version keeps its content and is filed for the split that uploaded it (known finding K7)
+// the losing version keeps its content and is filed for the split that uploaded it (was finding K7, repaired by 995fd83)
 //@   call Insert#3 assert [loser-kept] as($2, mergeEntry).BundleEntry.Hash == existing.Hash && as($2, mergeEntry).ID == existing.ID
 //@   call d.deconflicter#1 assert [loser-split] $0 == existing.ID
 //@   call Insert#5 assert [older-loser-kept] !newer && as($2, mergeEntry).BundleEntry.Hash == file.Hash && as($2, mergeEntry).ID == splitID
@@ -324,9 +324,17 @@ package core
 
 // every packed entry is stamped with its own upload time, taken when that entry is received
 //@ func (*fileIndex).pack
+//@   recv filePackedC flag got
+//@   call Now#1 assert [after-receipt] got
 //@   call Now#1 bind stamp = $ret0
-//@   loop 1 step [stamped-per-entry] numFilePackedRes != prev(numFilePackedRes) ==> stamp_set
 //@   call filePacked2BundleEntry#1 assert [of-received] $packedFile == file
+//@   call append#1 assert [entry-stamped] stamp_set && $1[0].Timestamp == stamp && $1[0].Hash == file.hash && $1[0].NameWithPath == file.name && $1[0].Size == file.size
+
+//@ func filePacked2BundleEntry
+//@   ensures [fields] result.Hash == packedFile.hash && result.NameWithPath == packedFile.name && result.Size == packedFile.size
+
+//@ func mergeEntryToFilePacked
+//@   ensures [fields] result.hash == in.BundleEntry.Hash && result.name == in.BundleEntry.NameWithPath && result.size == in.BundleEntry.Size
 
 // ---- diamonds and splits: sequential guards (C12). The at-most-once statement under interleavings
 // of concurrent commits is NOT decided here (two executions; see DESIGN.md). ------------------------
